@@ -226,6 +226,10 @@ function exec(ex, kind, a, objs, ptr, bufs, violations, t, i, mem, ctx) {
       const p = Number(ex.finder_needle_ptr(o.h)), l = Number(ex.finder_needle_len(o.h));
       return R.bytes(Array.from(mem().subarray(p, p + l)));
     }
+    case 'FinderRepeat': {
+      const o = objs.get(a.f); if (!o || o.k !== 'Fwd') return R.skip();
+      const [hp, hl] = H(a.hay); return opt(ex.finder_find(o.h, hp, hl, 0));
+    }
     case 'FinderClone': {
       const o = objs.get(a.f); if (!o || (o.k !== 'Fwd' && o.k !== 'Rev')) return R.skip();
       objs.set(a.dst, { k: o.k, h: Number(ex.finder_clone(o.h)), needle: o.needle }); return R.unit();
